@@ -118,11 +118,9 @@ theorem measureSectionsTicks_le_pages (high : Nat) (secs : List Sec) (hl : ∀ s
 
 /-- sev.LaunchDigest: loop iterations bounded by the image length, the vCPU count and a CONSTANT — the
     declared pages are hashed only after validateSections has accepted the metadata. -/
-theorem launchDigestTicks_le_const (c : Cfg) (o : Opts) (fw : Bytes) :
-    launchDigestTicks c o fw ≤ fw.length / 2 + 4 + 2 * o.vcpus.toNat + (2 ^ 21 - 2) := by
-  unfold launchDigestTicks
-  split
-  · omega
+theorem launchDigestBodyTicks_le_const (c : Cfg) (o : Opts) (fw : Bytes) :
+    launchDigestBodyTicks c o fw ≤ fw.length / 2 + 4 + 2 * o.vcpus.toNat + (2 ^ 21 - 2) := by
+  unfold launchDigestBodyTicks
   · have h1 := SnpTotal.extractFromFirmwareTicks_le true true fw
     rcases SnpTotal.extractFromFirmware_tt fw with ⟨e, he⟩ | ⟨rb, secs, hp, hl, hr⟩
     · rw [he]; simp only; omega
@@ -148,6 +146,15 @@ theorem launchDigestTicks_le_const (c : Cfg) (o : Opts) (fw : Bytes) :
           | err e => simp only; omega
           | panic q => simp only; omega
           | ok d1 => simp only; omega
+
+theorem launchDigestTicks_le_const (c : Cfg) (o : Opts) (fw : Bytes) :
+    launchDigestTicks c o fw ≤ fw.length / 2 + 4 + 2 * o.vcpus.toNat + (2 ^ 21 - 2) := by
+  unfold launchDigestTicks
+  split
+  · omega
+  · split
+    · omega
+    · exact launchDigestBodyTicks_le_const c o fw
 
 theorem launchDigestAlloc_le_const (c : Cfg) (o : Opts) (fw : Bytes) :
     launchDigestAlloc c o fw ≤ 64 * fw.length + 4368 * o.vcpus.toNat + (8704 + 128 * (2 ^ 21 - 2)) := by
